@@ -9,6 +9,8 @@ import (
 type GenOpts struct {
 	InterPod     float64 // probability that a pod carries pod (anti-)affinity / spread constraints
 	NodeAffinity float64 // probability of node selectors / affinity terms
+	// probability that a pod with a topology spread also prefers (soft node affinity) one domain of the spread key
+	PreferOnSpreadKey float64
 	Existing     float64 // probability scale for existing nodes
 	Reserved     bool    // generate reserved offerings and enable the feature gate
 	Limits       float64 // probability that a pool has limits
@@ -238,6 +240,14 @@ func GenPod(r *rand.Rand, name string, its []IT, pools []NodePool, o GenOpts) Po
 			p.Spreads = append(p.Spreads, Spread{TopologyKey: "topology.kubernetes.io/zone", MaxSkew: 1, DoNotSchedule: true, MatchLabels: map[string]string{"app": p.Labels["app"]}})
 		}
 	}
+	if o.PreferOnSpreadKey > 0 && len(p.Spreads) > 0 && r.Float64() < o.PreferOnSpreadKey {
+		switch p.Spreads[len(p.Spreads)-1].TopologyKey {
+		case "topology.kubernetes.io/zone":
+			p.Preferred = append(p.Preferred, Preferred{Weight: 50, Exprs: []KExpr{{Key: "topology.kubernetes.io/zone", Op: "In", Values: []string{pick(r, Zones)}}}})
+		case "karpenter.sh/capacity-type":
+			p.Preferred = append(p.Preferred, Preferred{Weight: 50, Exprs: []KExpr{{Key: "karpenter.sh/capacity-type", Op: "In", Values: []string{pick(r, capTypes)}}}})
+		}
+	}
 	return p
 }
 
@@ -385,6 +395,22 @@ func GenScenario(r *rand.Rand, o GenOpts) *Scenario {
 			c := base
 			c.Name = fmt.Sprintf("rep-%d", i)
 			s.Pods = append(s.Pods, c)
+		}
+	}
+	// nodeTaintsPolicy=Honor is only generated when every Node object is initialized: for a node that still carries
+	// startup / unregistered / not-ready taints "does this node count for the skew" depends on WHEN the kube-scheduler looks
+	// (Karpenter reads the Node object for pods already running and the taints the node will have once ready for pods it
+	// places there), so an end-state verdict would be ambiguous.
+	for _, n := range s.Nodes {
+		if n.Stage == "node" || n.Stage == "registered" {
+			for i := range s.Pods {
+				for j := range s.Pods[i].Spreads {
+					if h := s.Pods[i].Spreads[j].NodeTaintsHonor; h != nil && *h {
+						s.Pods[i].Spreads[j].NodeTaintsHonor = nil
+					}
+				}
+			}
+			break
 		}
 	}
 	if s.Nodes == nil {
